@@ -53,6 +53,10 @@ class Env:
         self.fcount = {}
         self.fault_fired = False
         self.orig_open = pathlib.Path.open
+        self.nonblocking = False  # the current lock acquisition is a timeout/non-blocking attempt
+        self._refused = False
+        self.capturing = False  # atexit registrations are collected instead of registered
+        self.exit_funcs = []
 
     # -- scheduling point -------------------------------------------------------------------
     def point(self, label, info=None):
@@ -96,12 +100,19 @@ class Env:
         def trylock(lockfile, exclusive):
             if not env.active:
                 return o_try(lockfile, exclusive)
+            if env.nonblocking and env._refused:
+                return False  # a retry inside the same timed-out attempt: no new scheduling point
             while True:
                 env.point("lock?", "excl" if exclusive else "shared")
                 got = o_try(lockfile, exclusive)
                 if got:
                     env.prev = "acquired"
                     return True
+                if env.nonblocking:
+                    # an attempt with a timeout: it gives up instead of waiting
+                    env.prev = "would-block"
+                    env._refused = True
+                    return False
                 env.blocked()
 
         def unlock(lockfile):
@@ -114,6 +125,24 @@ class Env:
         mech.trylock = trylock
         mech.unlock = unlock
 
+        import atexit as _atexit
+
+        o_reg, o_unreg = _atexit.register, _atexit.unregister
+
+        def register(func, *a, **k):
+            if env.capturing:
+                env.exit_funcs.append((func, a, k))
+                return func
+            return o_reg(func, *a, **k)
+
+        def unregister(func):
+            if env.capturing:
+                env.exit_funcs[:] = [t for t in env.exit_funcs if t[0] != func]
+            return o_unreg(func)
+
+        _atexit.register = register
+        _atexit.unregister = unregister
+
         orig_open = self.orig_open
 
         def open_(p, mode="r", *a, **k):
@@ -124,17 +153,47 @@ class Env:
                     raise OSError("injected: open failed")
                 f = orig_open(p, mode, *a, **k)
                 env.prev = "opened:" + mode
-                return SchedStream(f, env, mode)
+                return SchedStream(f, env, mode, os.path.realpath(str(p)))
             return orig_open(p, mode, *a, **k)
 
         pathlib.Path.open = open_
 
 
 class SchedStream:
-    def __init__(self, inner, env, mode):
+    """Proxy of the library stream: scheduling points at write/truncate/close, fault injection,
+    and bookkeeping of what is durable (on disk) as opposed to sitting in Python's write buffer."""
+
+    def __init__(self, inner, env, mode, path=None):
         self._inner = inner
         self._env = env
         self._mode = mode
+        self._path = path
+        self._durable = self._disk_size()
+
+    def _disk_size(self):
+        try:
+            return os.fstat(self._inner.fileno()).st_size
+        except Exception:
+            return None
+
+    def _sync(self):
+        # seek/read/flush/truncate push Python's write buffer to the file
+        self._durable = self._disk_size()
+
+    def seek(self, *a):
+        r = self._inner.seek(*a)
+        self._sync()
+        return r
+
+    def read(self, *a):
+        r = self._inner.read(*a)
+        self._sync()
+        return r
+
+    def flush(self):
+        r = self._inner.flush()
+        self._sync()
+        return r
 
     def write(self, b):
         env = self._env
@@ -148,12 +207,15 @@ class SchedStream:
             env.prev = "write-raised"
             raise OSError("injected: write failed")
         n = self._inner.write(b)
+        if len(b) >= 8192:
+            self._sync()  # larger than the buffer: written through
         env.prev = "written"
         return n
 
     def truncate(self, size=None):
         self._env.point("trunc", size)
         r = self._inner.truncate(size)
+        self._sync()
         self._env.prev = "truncated"
         return r
 
@@ -162,6 +224,19 @@ class SchedStream:
         if self._inner.closed:
             return
         env.point("close", self._mode)
+        if self._mode != "rb" and env.fault_here("flush"):
+            # the final flush of the buffered data fails (disk full, quota, EFBIG): what was still
+            # in the buffer never reaches the file; the descriptor is closed, the error is reported
+            durable = self._durable
+            self._inner.close()
+            if durable is not None and self._path is not None:
+                try:
+                    if os.path.getsize(self._path) > durable:
+                        os.truncate(self._path, durable)
+                except OSError:
+                    pass
+            env.prev = "closed-but-buffer-lost"
+            raise OSError(27, "injected: flush at close failed, buffered data lost")
         self._inner.close()
         if env.fault_here("close"):
             # like a failing flush-on-close: the descriptor is gone, the error is reported
